@@ -18,7 +18,7 @@ RESET = [-6]
 FATAL = [-5, -7, -8]
 
 
-def build_harness(ctx_scratch: Path, backend: str, thermal: bool = False):
+def build_harness(ctx_scratch: Path, backend: str, thermal: bool = False, asan: bool = False):
     from ..harness.render import render, reset_globals, quiet
     from ..harness.cxx import GXX, SHIM, run
 
@@ -52,6 +52,8 @@ def build_harness(ctx_scratch: Path, backend: str, thermal: bool = False):
                 (d / "src" / f"{name}_cu.cpp").write_text("#include <algorithm>\nusing std::min; using std::max;\n" + cu.read_text())
                 srcs.append(f"src/{name}_cu.cpp")
         extra = ["-D__host__=", "-D__device__=", "-D__constant__=const", "-D__global__="]
+    if asan:
+        extra = list(extra) + ["-fsanitize=address,undefined", "-fno-sanitize-recover=all", "-g", "-O1"]
     cmd = [GXX, "-std=c++17", "-O2", "-w", *extra, "-include", str(VERIF / "cxx" / "verif_io.h"), "-I", str(SHIM), "-I", "include", *srcs, str(drv), "-o", "drv", "-lm"]
     rc, so, se = run(cmd, cwd=str(d), timeout=600)
     if rc != 0:
@@ -62,7 +64,13 @@ def build_harness(ctx_scratch: Path, backend: str, thermal: bool = False):
 
 def run_drv(args):
     drv, argv = args
-    p = subprocess.run([str(drv)] + [str(a) for a in argv], capture_output=True, text=True, timeout=7200, cwd=str(Path(drv).parent))
+    p = subprocess.run([str(drv)] + [str(a) for a in argv], capture_output=True, text=True, timeout=7200, cwd=str(Path(drv).parent), env={"ASAN_OPTIONS": "detect_leaks=0"})
+    if p.returncode < 0 or "AddressSanitizer" in p.stderr or "runtime error" in p.stderr:
+        # the compiled harness (rendered Solve/HandleError + mock integrator) died: reported by the caller after a
+        # second run under the address sanitizer that names the access
+        head = next((ln for ln in p.stderr.splitlines() if "ERROR: AddressSanitizer" in ln or "runtime error" in ln), "")
+        where = next((ln.strip() for ln in p.stderr.splitlines() if "naunet.cpp" in ln), "")
+        return argv, {"crash": p.returncode, "detail": (head + " " + where)[:400]}
     if p.returncode != 0:
         raise HarnessError(f"driver failed rc={p.returncode}: {p.stderr[-500:]} {p.stdout[-300:]}")
     return argv, json.loads(p.stdout.strip().splitlines()[-1])
@@ -138,7 +146,21 @@ def run(ctx):
                     roots = [[c] for c in range(len(ok))] + [[c, c2] for c in range(len(ok), arity) for c2 in range(arity)]
                 for r in roots:
                     work.append((drv, [mode, lvl, csv(flags), csv(fracs), csv(ok), rf, repr(dt), csv(r), cap]))
-            for argv, res in ctx.pmap(run_drv, work):
+            results = list(ctx.pmap(run_drv, work))
+            crashes = [argv for argv, res in results if "crash" in res]
+            if crashes:
+                d2, drv2, err2 = build_harness(ctx.scratch, backend.split("+")[0], thermal=backend.endswith("+thermal"), asan=True)
+                if drv2 is None:
+                    raise HarnessError(f"sanitizer build failed: {err2}")
+                try:
+                    a0, r0 = run_drv((drv2, crashes[0]))
+                finally:
+                    shutil.rmtree(d2, ignore_errors=True)
+                detail = r0.get("detail") or f"killed by signal {-r0.get('crash', 0)}" if "crash" in r0 else "no report under the sanitizer (optimised build killed by a signal)"
+                kind = "heap-or-stack-overflow" if "overflow" in detail else "memory-error"
+                ctx.violation(f"C19:{backend}:{kind}", f"{backend}: the rendered Solve / HandleError accesses memory outside its objects during pass {crashes[0][:7]}: {detail}", {"backend": backend, "argv": crashes[0][:8], "choices": [], "crash": True})
+                results = [(a, r) for a, r in results if "crash" not in r]
+            for argv, res in results:
                 key = f"{backend}:mode{argv[0]}" + (f".{argv[1]}" if argv[0] == 2 else "") + f"@{argv[6]}"
                 pp = per_pass.setdefault(key, {"runs": 0, "success": 0, "fail": 0, "capped": False, "deepest_level": [0] * 8})
                 pp["runs"] += res["runs"]
@@ -214,6 +236,17 @@ def run_odeint(ctx):
 def replay(ctx, case):
     if case.get("backend") == "rosenbrock4":
         run_odeint(ctx)
+        return
+    if case.get("crash"):
+        d, drv, err = build_harness(ctx.scratch, case["backend"].split("+")[0], thermal=case["backend"].endswith("+thermal"), asan=True)
+        if drv is None:
+            raise HarnessError(err)
+        try:
+            a0, r0 = run_drv((drv, list(case["argv"][:8]) + [40_000_000]))
+        finally:
+            shutil.rmtree(d, ignore_errors=True)
+        if "crash" in r0:
+            ctx.violation(f"C19:{case['backend']}:{'heap-or-stack-overflow' if 'overflow' in r0.get('detail', '') else 'memory-error'}", f"replay: {r0.get('detail')}", case)
         return
     d, drv, err = build_harness(ctx.scratch, case["backend"].split("+")[0], thermal=case["backend"].endswith("+thermal"))
     if drv is None:
